@@ -146,6 +146,14 @@ func applyOp(op string, parent *forge.Node, ci int) bool {
 		if op == "inc-last-byte" {
 			n.Content[len(n.Content)-1]++
 		}
+	case "mid-percent", "mid-space", "mid-control", "mid-colon", "mid-at", "mid-bracket":
+		// characters that break the syntax of URIs, mail addresses and host names, put into the middle of a string
+		if !leaf || len(n.Content) < 4 {
+			return false
+		}
+		ins := map[string][]byte{"mid-percent": []byte("%2G"), "mid-space": []byte(" "), "mid-control": {0x7f}, "mid-colon": []byte(":x:"), "mid-at": []byte("@@"), "mid-bracket": []byte("[")}[op]
+		at := len(n.Content) * 2 / 3
+		n.Content = append(append(append([]byte{}, n.Content[:at]...), ins...), n.Content[at:]...)
 	case "duplicate-node":
 		parent.Children = append(parent.Children[:ci+1], append([]*forge.Node{n.Clone()}, parent.Children[ci+1:]...)...)
 	case "delete-node":
